@@ -248,6 +248,8 @@ def parse_request(raw):
             errors.append('malformed header line %r' % ln[:120])
             continue
         fields.append((mm.group(1).decode('latin-1').lower(), mm.group(2).decode('latin-1')))
+        if fields[-1][0] == 'host' and re.search(r'[\s\x00-\x1f\x7f]', fields[-1][1]):
+            errors.append('Host value with white space or a control character: %r' % ln[:120])
     return method, target, version, fields, errors
 
 
@@ -517,7 +519,9 @@ def run(tape, prop, tier):
         elif strategy == 'bad_location':
             r.probes['bad_location'] += 1
             h.expected = None
-            bad = tape.choice(('http://[bad', 'http://', '::::', 'http://a.test:99999/', ''), 'badloc')
+            # ('[fd00::6%a b]': ipaddress accepts any text as the zone of an IPv6 address; a listener answers at that address, so
+            # whatever the client makes of it reaches the request oracle)
+            bad = tape.choice(('http://[bad', 'http://', '::::', 'http://a.test:99999/', '', 'http://[fd00::6%a b]/landing', 'http://[fd00::6%a b]:80/x?y'), 'badloc')
             redirect(tape.choice((301, 302, 307), 'redir.code'), None, raw_location=bad)
             h.expected = None
         elif strategy == 'perpetual_401':
@@ -565,6 +569,8 @@ def run(tape, prop, tier):
                 net.add_host(host_hdr, ip)
                 net.add_host(host.strip('[]'), ip)
                 net.listen(ip, port, site.listener(oi))
+            for zone_ip in ('fd00::6%a b',):
+                net.listen(zone_ip, 80, site.listener(7))
             resolver = Resolver()
             resolver.dns_python_enabled = False
             import ssl as _ssl
